@@ -494,6 +494,15 @@ class MockIncludeDirective:
         source = self.renderer.document["source"]
         rsource = self.renderer.reporter.source
         line_func = getattr(self.renderer.reporter, "get_source_and_line", None)
+        # guard against a file including itself (directly or via other files)
+        include_stack: list[str] = self.renderer.md_env.setdefault(
+            "myst_include_stack", []
+        )
+        if os.path.abspath(path) in [*include_stack, os.path.abspath(source)]:
+            raise DirectiveError(
+                3, f'Directive "{self.name}": circular inclusion of file: {str(path)!r}'
+            )
+        include_stack.append(os.path.abspath(source))
         try:
             self.renderer.document["source"] = str(path)
             self.renderer.reporter.source = str(path)
@@ -514,6 +523,7 @@ class MockIncludeDirective:
                 heading_offset=self.options.get("heading-offset", 0),
             )
         finally:
+            include_stack.pop()
             self.renderer.document["source"] = source
             self.renderer.reporter.source = rsource
             self.renderer.md_env.pop("relative-images", None)
